@@ -23,7 +23,7 @@ CHECKS["C15"] = dict(
 )
 
 CHECKS["C04"] = dict(
-    technique="Coq proof by induction over arbitrary trees (permutation schedules visit every node exactly once) over schedules translated from traverser.py/visitor.py/mapping.py and mypy's own sources; correspondence by vm_compute on serialised real trees; source-level context-placement oracle",
+    technique="Coq proof by induction over arbitrary trees (permutation schedules visit every node exactly once) over schedules translated from traverser.py/visitor.py/mapping.py and mypy's own sources; correspondence by vm_compute on serialised real trees; source-level context-placement oracle (also for a plugin check loaded under every spelling of its module name); identical-twin oracle (no run reports the very same diagnostic twice) over test data and the committed corpora",
     category="proof",
     text="Every visit_* body, the accept registry, METHOD_NODE_MAPPINGS, build_visitor and the RefurbVisitor override are translated (fail-closed) on each run, next to mypy's own TraverserVisitor as the definition of syntactic children. Lib/Tree.v proves for all trees of any depth/width: if each kind's schedule is a permutation of its child fields then one traversal returns every node exactly once (Permutation with the tree's structural enumeration, NoDup of paths) and each subscribed check is called once per node; the table facts are decided by vm_compute on the regenerated tables. The Coq traversal is compared with the real RefurbVisitor (recorder subscribed to every node type) on serialised real mypy trees, and a marked idiom is placed in ~75 syntactic contexts and their compositions and must be diagnosed exactly once at its position.",
     note="Trusted: Coq kernel; schedule/visitor_model translators; mypy's traverser as spec of children (minus derived `analyzed` nodes and two alias fields checked by identity on real trees); serializer. mypy's source->AST placement is covered by the context oracle only.",
